@@ -527,6 +527,9 @@ func c12Bind(c *cx) {
 		pt, _ := g.Where(cl)
 		c.domAny("C12.5", f, cl, "UpdateAddr [our request id]", []string{"eq(*.ID,internal/attr.RandomID())", "eq(internal/attr.RandomID(),*.ID)"})
 		c.dom("C12.5", f, cl, "UpdateAddr [result]", []string{"eq(*.Type,stanza.ResultIQ)"})
+		// ... that actually names an address (a result without <jid/> must not
+		// replace the session's address by the empty one)
+		c.domAny("C12.5", f, cl, "UpdateAddr [an address was assigned]", []string{"!jid.JID.Equal[*.Bind.JID](jid.JID{})", "!jid.JID.Equal[jid.JID{}](*.Bind.JID)", "!eq(jid.JID.String[*.Bind.JID](),\"\")"})
 		okArg := len(cl.Args) == 1 && eng.Glob("*.Bind.JID", f.Norm(cl.Args[0], &pt))
 		c.r.Check("C12.5", f, "UpdateAddr argument", "P: the session reports the address the server assigned", cl.Pos(), okArg, "argument is "+f.Norm(cl.Args[0], &pt))
 	}
